@@ -8,10 +8,12 @@ use std::os::unix::ffi::OsStrExt;
 use std::path::{Path, PathBuf};
 use vh::{catch, Sx};
 
+/// Logical mtimes.  Regime "old": second `BASE + clock` (year 2001).  Regime "fresh": `start - 0.9 s + clock ms`,
+/// so that every file looks recently modified (time-dependent shortcuts in the code under test are exercised in
+/// both regimes).  A file whose mtime is not the one the harness assigned last has been touched by the real code.
 const BASE: i64 = 1_000_000_000;
-const RANGE: i64 = 100_000_000;
 
-fn walk(root: &Path, dir: &Path, out: &mut Vec<(Vec<u8>, u64, i64, PathBuf)>) {
+fn walk(root: &Path, dir: &Path, out: &mut Vec<(Vec<u8>, u64, FileTime, PathBuf)>) {
     if let Ok(rd) = std::fs::read_dir(dir) {
         for e in rd.flatten() {
             let p = e.path();
@@ -24,7 +26,7 @@ fn walk(root: &Path, dir: &Path, out: &mut Vec<(Vec<u8>, u64, i64, PathBuf)>) {
             } else if ft.is_file() {
                 let m = std::fs::metadata(&p).unwrap();
                 let rel = p.strip_prefix(root).unwrap().as_os_str().as_bytes().to_vec();
-                let mt = FileTime::from_last_modification_time(&m).unix_seconds();
+                let mt = FileTime::from_last_modification_time(&m);
                 out.push((rel, m.len(), mt, p.clone()));
             }
         }
@@ -49,9 +51,22 @@ struct World {
     clock: i64,
     poisoned: bool,
     nfile: u64,
+    fresh: Option<FileTime>,
+    assigned: std::collections::HashMap<PathBuf, (FileTime, i64)>,
 }
 
 impl World {
+    fn logical(&self, clock: i64) -> FileTime {
+        match self.fresh {
+            None => FileTime::from_unix_time(BASE + clock, 0),
+            Some(t0) => {
+                let ns = t0.unix_seconds() as i128 * 1_000_000_000 + t0.nanoseconds() as i128 - 900_000_000
+                    + (clock as i128 - 1000) * 1_000_000;
+                FileTime::from_unix_time((ns / 1_000_000_000) as i64, (ns % 1_000_000_000) as u32)
+            }
+        }
+    }
+
     fn observe(&mut self, res: &str) -> Sx {
         let mut listing = vec![];
         walk(&self.root.clone(), &self.root.clone(), &mut listing);
@@ -65,13 +80,16 @@ impl World {
                 ntmp += 1;
                 continue;
             }
-            let logical = if (BASE..BASE + RANGE).contains(&mt) {
-                mt - BASE
-            } else {
-                self.clock += 1;
-                set_file_mtime(&path, FileTime::from_unix_time(BASE + self.clock, 0)).unwrap();
-                touched.push(Sx::B(rel.clone()));
-                self.clock
+            let logical = match self.assigned.get(&path) {
+                Some((t, c)) if *t == mt => *c,
+                _ => {
+                    self.clock += 1;
+                    let t = self.logical(self.clock);
+                    set_file_mtime(&path, t).unwrap();
+                    self.assigned.insert(path.clone(), (t, self.clock));
+                    touched.push(Sx::B(rel.clone()));
+                    self.clock
+                }
             };
             files.push(Sx::L(vec![Sx::B(rel), Sx::n(size), Sx::N(logical as u128)]));
         }
@@ -208,12 +226,6 @@ fn run_case(case: &Sx) -> Sx {
     let ext = td.path().join("ext");
     std::fs::create_dir_all(&root).unwrap();
     std::fs::create_dir_all(&ext).unwrap();
-    for f in case.arg(1).list() {
-        let p = root.join(OsStr::from_bytes(f.arg(0).bytes()));
-        std::fs::create_dir_all(p.parent().unwrap()).unwrap();
-        std::fs::write(&p, vec![b'i'; f.arg(1).u64() as usize]).unwrap();
-        set_file_mtime(&p, FileTime::from_unix_time(BASE + f.arg(2).u64() as i64, 0)).unwrap();
-    }
     let mut w = World {
         root,
         ext,
@@ -223,7 +235,22 @@ fn run_case(case: &Sx) -> Sx {
         clock: 1000,
         poisoned: false,
         nfile: 0,
+        fresh: if case.arg(3).as_bool() { Some(FileTime::now()) } else { None },
+        assigned: Default::default(),
     };
+    for f in case.arg(1).list() {
+        let p = w.root.join(OsStr::from_bytes(f.arg(0).bytes()));
+        std::fs::create_dir_all(p.parent().unwrap()).unwrap();
+        std::fs::write(&p, vec![b'i'; f.arg(1).u64() as usize]).unwrap();
+        // initial files: logical clock values 1..999 (below the running clock's start of 1000)
+        let c = f.arg(2).u64() as i64;
+        let t = match w.fresh {
+            None => FileTime::from_unix_time(BASE + c, 0),
+            Some(_) => w.logical(c),
+        };
+        set_file_mtime(&p, t).unwrap();
+        w.assigned.insert(p.clone(), (t, c));
+    }
     let mut out = vec![];
     let r = w.open(case.arg(0).u64());
     out.push(w.observe(r));
